@@ -798,7 +798,13 @@ fn exec_abandoned(xs: &[Req], deadline: std::time::Duration) -> Bad {
         model_step(&mut m, *x, 1);
     }
     // observers
-    let observers = [Req::GetState(0), Req::GetState(1), Req::GetExact(0), Req::GetMany(0), Req::GetMany(1), Req::Insert(1), Req::GetMany(1)];
+    // (a write to document 1 among the observers, unless an abandoned write to it is queued: all
+    // queued writes are stamped with the same pinned clock, and a second identical write is
+    // rightly refused, which the per-step timestamps of the model do not reproduce)
+    let mut observers = vec![Req::GetState(0), Req::GetState(1), Req::GetExact(0), Req::GetMany(0), Req::GetMany(1)];
+    if !xs.iter().any(|x| matches!(x, Req::Insert(1) | Req::Delete(1))) {
+        observers.extend([Req::Insert(1), Req::GetMany(1)]);
+    }
     let mut futs: Vec<Pin<Box<dyn Future<Output = String> + '_>>> = vec![];
     let mut wants = vec![];
     for (j, o) in observers.iter().enumerate() {
